@@ -14,6 +14,9 @@ pub open spec fn del_post(m: TM, n: u32, t0: TmpV, t1: TmpV, d: Set<u32>, cap: u
     &&& (forall|x: u32| #![trigger s.contains(x)] s.contains(x) && !tnodes(m1, tn(id)).contains(x) ==> t1.deleted.contains(x))
     // ... and a subtree that fits one bucket IS one bucket (C15)
     &&& (its.len() <= cap ==> m1[id] is Desc)
+    // C15: deleting never creates an oversized bucket
+    &&& ((forall|x: u32| #![trigger s.contains(x)] s.contains(x) ==> !over_cap(m[x], cap))
+            ==> (forall|x: u32| #![trigger tnodes(m1, tn(id)).contains(x)] tnodes(m1, tn(id)).contains(x) ==> !over_cap(m1[x], cap)))
 }
 /// what processing one child `c` of a split (staged edits ta -> tb) yields: the new child reference and its surviving items
 pub open spec fn child_post(m: TM, c: NodeId, nc: NodeId, ta: TmpV, tb: TmpV, d: Set<u32>, cap: u64, its: Set<u32>) -> bool {
